@@ -79,6 +79,48 @@ def prop(program):
     return out
 
 
+def build_own(real, k0, reuse, msg):
+    """The id the hostile request arrives on is held by one of the receiver's OWN requests (its own parity)."""
+    raw = OTHER[real]
+    spec = {'k': k0, 'side': real, 'req': [6, 2]}
+    if k0 == 'rr':
+        spec['resp'] = {'mode': 'manual', 'p': [9, 3]}
+    else:
+        spec['src'] = {'kind': 'manual', 'els': [[5, 0]], 'end': 'flag'}
+        spec['sub'] = {'n0': 10, 'refill': 0}
+    ops = [['tick', 3], ['start'], ['tick', 3], ['rawreuse', 0, reuse], ['tick', 3], ['rawf', 0, 'next_complete', [7, 1]], ['tick', 4]]
+    return {'cfg': {'msg': msg, 'frag': [None, None], 'rbuf': [64, 64], 'raw': raw}, 'inter': [spec], 'ops': ops, 'heal': False,
+            'reuse_own': {'real': real, 'original': k0, 'reuse_with': reuse}}
+
+
+def prop_own(program):
+    tr = run_program(program)
+    out = []
+    info = program['reuse_own']
+    real = info['real']
+    sid = tr.scn.st[0]['sid']
+    facts = dict(info)
+    errors = [f for f in tr.scn.raw.frames if f['sid'] == sid and f['type'] == 'ERROR']
+    if not errors:
+        out.append(viol('reused_id_not_rejected', 'C13:reuse_not_rejected:own:%s_on_%s' % (info['reuse_with'], info['original']), **facts))
+    elif errors[0].get('code') != 0x202:
+        out.append(viol('reused_id_wrong_error_code', 'C13:reuse_wrong_code:own', code=errors[0].get('code'), **facts))
+    if any(e['ev'] == 'handler' and e['side'] == real for e in tr.world.log):
+        out.append(viol('handler_invoked_for_reused_id', 'C13:reuse_handler_invoked:own', **facts))
+    # the receiver's own request is still answered by the frame the peer sent for it afterwards
+    evs = [e for e in tr.world.log if e.get('uid') == 0 and e['side'] == real]
+    if info['original'] == 'rr':
+        ok = any(e['ev'] == 'rr_result' for e in evs)
+    else:
+        ok = any(e['ev'] == 'on_next' for e in evs)
+    if not ok:
+        out.append(viol('original_stream_disturbed', 'C13:reuse_disturbed_original:own:%s' % info['original'],
+                        got=[e['ev'] for e in evs][:8], **facts))
+    for err in tr.loop_errors:
+        out.append(viol('unhandled_exception', 'C13:reuse_loop_error', **err))
+    return out
+
+
 def shard(tier, seed, n):
     common.use_repo()
     stats = common.Stats()
@@ -92,5 +134,13 @@ def shard(tier, seed, n):
         for v in common.judge(stats, known, prog, vs):
             if not any(v['sig'] == vv['sig'] for vv, _ in stats.violations):
                 stats.violations.append((v, prog))
-    stats.extra['incoming_reuse_matrix'] = {'combinations': len(combos), 'exhaustive': True}
+    own = list(itertools.product(('c', 's'), ('rr', 'st'), ('rr', 'fnf', 'st', 'ch'), (False, True)))
+    for real, k0, reuse, msg in own:
+        prog = build_own(real, k0, reuse, msg)
+        vs = prop_own(prog)
+        stats.case(prog, True, ['incoming_reuse_of_own_id'], sample_limit=1)
+        for v in common.judge(stats, known, prog, vs):
+            if not any(v['sig'] == vv['sig'] for vv, _ in stats.violations):
+                stats.violations.append((v, prog))
+    stats.extra['incoming_reuse_matrix'] = {'combinations': len(combos) + len(own), 'exhaustive': True}
     return stats
